@@ -188,6 +188,29 @@ def run(tier):
             want = [tuple(values.from_jval(j) for j in row) for row in nat.get("rows") or []]
             pairs.append(({"cls": "%s/%d" % (s["query"], s["id"]), "what": "database/sql %r" % s["query"], "sql": "native Select(%s, %s)" % (t, want_cols)}, got, want))
     prepared_again(v, "C19", h, d, db, desc, pairs)
+    # two result sets open at the same time on ONE connection (sql.Conn, sql.Tx: the nested-loop join every application
+    # writes): each returns all its rows, as the native select does
+    over = []
+    for i, (q, t, cols) in enumerate(queries[:4]):
+        for kind in ("conn", "tx"):
+            over.append({"id": len(over), "db": db, "query": q, "next_k": -1, "action": "drain", "gomaxprocs": 4, "yield_first": False, "overlap": kind, "_t": t, "_cols": cols})
+    oreq, oout = os.path.join(d, "over-req.ndjson"), os.path.join(d, "over-res.ndjson")
+    common.write_ndjson(oreq, [{k: s_[k] for k in s_ if not k.startswith("_")} for s_ in over])
+    rc, txt, _ = common.run([h, "driver", oreq, oout], timeout=600)
+    if rc != 0:
+        raise common.harness_failure(txt, "harness driver")
+    ores = {r_["id"]: r_ for r_ in common.read_ndjson(oout)}
+    for s_ in over:
+        ov = ores[s_["id"]].get("over") or {}
+        problems = [k_ for k_ in ("begin_err", "conn_err", "err1", "err2") if ov.get(k_)]
+        n_ = counts[s_["_t"]]
+        if not problems and (len(ov.get("rows2") or []) != n_ or int(ov.get("rest1", -1)) != max(n_ - 1, 0)):
+            problems.append("row counts %s / %s of %d" % (len(ov.get("rows2") or []), ov.get("rest1"), n_))
+        if problems:
+            v.report("C19:overlapping-result-sets:%s" % s_["overlap"], "two result sets of %r open on one %s: %s %s" % (s_["query"], s_["overlap"], problems, {k_: ov.get(k_) for k_ in problems if k_ in ov}),
+                     lambda s_=s_, ov=ov: common.write_replay("C19", "overlap-%d.json" % s_["id"], {"scenario": {k: s_[k] for k in s_ if not k.startswith("_")}, "result": {k: ov[k] for k in ov if k != "rows2"}}))
+        v.nontrivial(("overlap", s_["query"], s_["overlap"]))
+    v.cov["overlapping_result_sets"] = len(over)
     # the same error / fault scenarios under the race detector build: the error hand-off (store, wait group, close of the
     # channel) must be ordered, an unordered one shows as a data race on the result set's fields
     hrace = common.build_harness(race=True)
